@@ -49,8 +49,17 @@ def lock_regions(node, stop=None):
 
 
 def in_lock(node, attr):
-    """node is lexically inside a region of a lock whose dotted name ends with .attr (or equals attr)"""
-    return any(d == attr or d.endswith('.' + attr) for d in lock_regions(node))
+    """node is lexically inside a region of a lock whose dotted name ends with .attr (or equals attr);
+    a local alias (lock = self.updateLock) is resolved through its assignment"""
+    names = []
+    fn = enclosing_func(node)
+    for d in lock_regions(node):
+        names.append(d)
+        if '.' not in d and fn is not None and not isinstance(fn, ast.Lambda):
+            for v, st, how in local_assigns(fn, d):
+                if how == 'assign' and v is not None and dotted(v):
+                    names.append(dotted(v))
+    return any(d == attr or d.endswith('.' + attr) for d in names)
 
 
 # ----------------------------------------------------------------------------- stores
@@ -570,3 +579,40 @@ def loop_anchor(cfg, node):
     if outer is not None:
         return cfg.ids(outer)
     return cfg.node_of(node)
+
+
+# ----------------------------------------------------------------------------- helper extraction (one level)
+
+def helper_methods_called(m, fi):
+    """[(call node in fi, FuncInfo of the helper)] for `self.<helper>(...)` calls resolving to a method of the same
+    class hierarchy (an extracted private helper)"""
+    out = []
+    if fi.cls is None:
+        return out
+    for c in calls_in(fi.node):
+        f = c.func
+        if isinstance(f, ast.Attribute) and dotted(f.value) == 'self':
+            for q in m.mro(fi.cls.qualname) + m.subclasses(fi.cls.qualname):
+                ci = m.classes.get(q)
+                if ci and f.attr in ci.methods and ci.methods[f.attr] is not fi:
+                    out.append((c, ci.methods[f.attr]))
+                    break
+    return out
+
+
+def deep_calls(m, fi, pred, depth=1):
+    """calls satisfying pred in fi itself and, one level deep, in helper methods of the same class called from fi.
+    -> list of (call, owner FuncInfo, site): site is the node inside fi that stands for the call in dominance / region
+    questions about fi (the call itself, or the helper call)"""
+    res = [(c, fi, c) for c in calls_in(fi.node) if pred(c)]
+    if depth > 0:
+        for site, helper in helper_methods_called(m, fi):
+            for c in calls_in(helper.node):
+                if pred(c):
+                    res.append((c, helper, site))
+    return res
+
+
+def in_lock_deep(call, owner, site, attr):
+    """the call runs inside a lock region named *.attr, in its own function or around the helper call site"""
+    return in_lock(call, attr) or (site is not call and in_lock(site, attr))
